@@ -32,6 +32,7 @@ DiffEvent ==
      ELSE IF asg'.members # asg.members /\ P2 = P THEN [Ev0 EXCEPT !.ev = "launch", !.g = G, !.n = CHOOSE n \in asg'.members : n \notin asg.members]
      ELSE IF P2 \ P # {} THEN [Ev0 EXCEPT !.ev = "register", !.g = G, !.n = CHOOSE n \in P2 : n \notin P, !.a = KC, !.b = KM]
      ELSE IF P \ P2 # {} THEN EN("node_gone", CHOOSE n \in P : n \notin P2)
+     ELSE IF asg'.desired # asg.desired THEN [Ev0 EXCEPT !.ev = "asg_desired", !.g = G, !.a = asg'.desired]
      ELSE IF asg' # asg THEN [Ev0 EXCEPT !.ev = "asg_edit", !.g = G, !.a = asg'.min, !.b = asg'.max]
      ELSE IF changed = {} THEN E("shuffle")
      ELSE IF api'[n1].cordoned # api[n1].cordoned THEN EN(IF api'[n1].cordoned THEN "cordon" ELSE "uncordon", n1)
@@ -43,7 +44,7 @@ DiffEvent ==
                                             ELSE IF api'[n1].taint.at < now - 1000 THEN "zero" ELSE "old"]
 
 EnvStep == (Tick \/ PodArrive \/ PodSchedule \/ PodFinish \/ CloudLaunch \/ Register \/ Cordon \/ Uncordon \/ ExtForce \/ ExtUnforce
-            \/ Annotate \/ Unannotate \/ ExtTaint \/ ExtUntaint \/ NodeGone \/ AsgEdit \/ Restart)
+            \/ Annotate \/ Unannotate \/ ExtTaint \/ ExtUntaint \/ NodeGone \/ AsgEdit \/ DesiredBump \/ Restart)
            /\ hist' = Append(hist, DiffEvent)
 
 SimScan ==
